@@ -8,6 +8,9 @@ import (
 	"encoding/json"
 	"flag"
 	"fmt"
+	"github.com/nyaruka/gocommon/httpx"
+	"github.com/nyaruka/goflow/assets"
+	"github.com/nyaruka/goflow/flows"
 	"math/rand"
 	"runtime/debug"
 	"sort"
@@ -49,6 +52,11 @@ func c04Pool() []poolVal {
 		{"{}", types.NewXObject(map[string]types.XValue{}), false, 0}, {`{"a":1}`, types.NewXObject(map[string]types.XValue{"a": num("1"), "__default__": types.NewXText("dflt")}), false, 0},
 		{"datetime", dt, false, 0}, {"date", dt.Date(), false, 0}, {"time", dt.Time(), false, 0},
 		{"function", types.NewXFunction("id", func(env envs.Environment, args ...types.XValue) types.XValue { return types.XBooleanTrue }), false, 0},
+		// (appended: the template context above refers to pool entries by index) collections whose items format to
+		// several lines, to nothing at all, or to a lone line break
+		{`["a\nb",""]`, types.NewXArray(types.NewXText("a\nb"), types.NewXText("")), false, 0},
+		{`["",null,"\n"]`, types.NewXArray(types.NewXText(""), nil, types.NewXText("\n"), types.NewXArray()), false, 0},
+		{`{"m":"a\nb","e":""}`, types.NewXObject(map[string]types.XValue{"m": types.NewXText("a\nb"), "e": types.NewXText(""), "n": nil, "l": types.NewXArray(types.NewXText("x\ny"), types.NewXText(""))}), false, 0},
 	}
 }
 
@@ -389,6 +397,18 @@ func c04Total(args []string) error {
 			}
 		}
 	}
+	// ---- the expression context of real sessions in unusual states: @webhook recreated from a saved result whose body is
+	// each kind of JSON value (after the session was written out and read back), runs without parent / child / input
+	if (*only == "" || *only == "context") && *shard == 0 {
+		for _, line := range c04Contexts(g) {
+			if line.Outcome == "panic" || line.Outcome == "timeout" {
+				emit(line)
+			} else {
+				n++
+				lw.write(line.Src, line, func(v string) { line.Src = v })
+			}
+		}
+	}
 	if *tplFile != "" && *shard == 0 {
 		ctx := types.NewXObject(map[string]types.XValue{"a": pool[28].v, "b": pool[31].v, "x": pool[4].v, "fields": pool[30].v})
 		forEachLine(*tplFile, 0, 1, func(i int, data []byte) error {
@@ -409,4 +429,106 @@ func c04Total(args []string) error {
 	lw.w.Flush()
 	fmt.Println(string(mustJSON(M{"lines": lw.n, "evaluations": n, "functions": len(entries), "leaked_goroutines": g.leaked})))
 	return nil
+}
+
+var c04ContextTemplates = []string{"@webhook", "@webhook.json", "@(json(webhook))", "@webhook.status", "@(webhook.headers)", "@webhook.json.t", "@(webhook.json[0])", "@(count(webhook.json))",
+	"@legacy_extra", "@(json(legacy_extra))", "@results.hook.extra", "@(json(results.hook))", "@trigger.params.vip", "@(json(trigger.params))", "@parent", "@child", "@(json(child))", "@input", "@resume",
+	"@(format(results))", "@(json(run))", "@node", "@ticket", "@globals", "@fields", "@urns", "@(format(webhook))", "@(text(webhook.json))", "@(default(webhook.json, \"d\"))"}
+
+// c04Contexts: a flow that calls a webhook (one body kind per run), waits, is written out, read back and resumed; every
+// template is evaluated in the resumed run - before and after another template referred to @webhook
+func c04Contexts(g *guard) []*C04Line {
+	var out []*C04Line
+	httpx.SetRequestor(&offlineRequestor{})
+	defer httpx.SetRequestor(httpx.DefaultRequestor)
+	kinds := make([]string, 0, len(bareBodies))
+	for k := range bareBodies {
+		kinds = append(kinds, k)
+	}
+	sort.Strings(kinds)
+	for _, kind := range kinds {
+		resetGenerators(1)
+		flow := M{"uuid": flowUUID(1), "name": "Ctx", "spec_version": "13.6.0", "language": "eng", "type": "messaging", "nodes": []M{
+			{"uuid": nodeUUID(1, 1), "actions": []M{{"uuid": actionUUID(1, 1, 1), "type": "call_webhook", "method": "GET", "url": "http://example.com/bare/" + kind, "result_name": "hook"}},
+				"router": M{"type": "switch", "operand": "@input.text", "wait": M{"type": "msg"}, "default_category_uuid": catUUID(1, 1, 1), "cases": []M{},
+					"categories": []M{{"uuid": catUUID(1, 1, 1), "name": "All", "exit_uuid": exitUUID(1, 1, 1)}}},
+				"exits": []M{{"uuid": exitUUID(1, 1, 1), "destination_uuid": nodeUUID(1, 2)}}},
+			{"uuid": nodeUUID(1, 2), "actions": []M{{"uuid": actionUUID(1, 2, 1), "type": "send_msg", "text": "after @webhook.json"}},
+				"router": M{"type": "switch", "operand": "@input.text", "wait": M{"type": "msg"}, "default_category_uuid": catUUID(1, 2, 1), "cases": []M{},
+					"categories": []M{{"uuid": catUUID(1, 2, 1), "name": "All", "exit_uuid": exitUUID(1, 2, 1)}}},
+				"exits": exitsFor(1, 2, 0)}}}
+		fail := func(what string, err error) {
+			out = append(out, &C04Line{Src: "context/" + kind + "/" + what, Kind: "context", Fn: "context", Args: []string{kind, what}, Outcome: "error", RKind: "error", Detail: err.Error()})
+		}
+		sa, err := loadAssets(mustJSON(M{"flows": []M{flow}}))
+		if err != nil {
+			fail("assets", err)
+			continue
+		}
+		trig, err := readTrigger(sa, mustJSON(M{"type": "manual", "flow": M{"uuid": flowUUID(1), "name": "Ctx"}, "contact": contactJSON(), "triggered_on": "2018-07-06T12:00:00Z",
+			"params": M{"vip": true, "no": false, "n": nil}}))
+		if err != nil {
+			fail("trigger", err)
+			continue
+		}
+		eng := newEngine(0, -1)
+		var s flows.Session
+		// every engine call is a call under the same guard: a panic or a hang in it is what the property forbids
+		step := func(what string, fn func() error) bool {
+			var ferr error
+			outcome, rk, detail := g.run(func() types.XValue {
+				ferr = fn()
+				return types.XBooleanTrue
+			})
+			if outcome == "panic" || outcome == "timeout" {
+				out = append(out, &C04Line{Src: "context/" + kind + "/" + what, Kind: "context", Fn: "context", Args: []string{kind, what}, Outcome: outcome, RKind: rk, Detail: detail})
+				return false
+			}
+			if ferr != nil {
+				fail(what, ferr)
+				return false
+			}
+			return true
+		}
+		if !step("start", func() error { var e error; s, _, e = eng.NewSession(sa, trig); return e }) {
+			continue
+		}
+		evalAll := func(tag string) {
+			for _, tpl := range c04ContextTemplates {
+				if len(s.Runs()) == 0 {
+					return
+				}
+				run := s.Runs()[0]
+				outcome, rk, detail := g.run(func() types.XValue {
+					v, _ := run.EvaluateTemplateValue(tpl, func(flows.Event) {})
+					run.EvaluateTemplate(tpl, func(flows.Event) {})
+					return v
+				})
+				out = append(out, &C04Line{Src: "context/" + kind + "/" + tag + "/" + tpl, Kind: "context", Fn: "context", Args: []string{kind, tag, tpl}, Outcome: outcome, RKind: rk, Detail: detail})
+			}
+		}
+		evalAll("live")
+		if !step("restore", func() error {
+			s2, e := eng.ReadSession(sa, sessionJSON(s), assets.IgnoreMissing)
+			if e == nil {
+				s = s2
+			}
+			return e
+		}) {
+			continue
+		}
+		evalAll("restored")
+		if !step("resume", func() error {
+			res, e := readResume(sa, resumeJSON("msg", "hello", 1))
+			if e != nil {
+				return e
+			}
+			_, e = s.Resume(res)
+			return e
+		}) {
+			continue
+		}
+		evalAll("resumed")
+	}
+	return out
 }
